@@ -31,6 +31,8 @@ import sys
 import networkx as nx
 import torch
 
+from .core import time_limit
+
 import leaspy.models  # noqa: F401  (must be imported before leaspy.variables.*)
 from leaspy.utils.functional import NamedInputFunction, Sum
 from leaspy.variables.dag import VariablesDAG
@@ -245,11 +247,15 @@ def observe(dag):
     }
 
 
+CASE_TIME_LIMIT_S = 5.0  # a construction takes < 1 ms (model graphs: < 50 ms); a non-terminating one is a refusal by CaseTimeout
+
+
 def run_once(variables, anc):
     """-> ("accepted", dag, observation) | ("refused", exc, "refused:<Type>:<reason>")"""
     try:
-        dag = construct(variables, anc)
-    except Exception as e:  # every exception of the implementation is an observation
+        with time_limit(CASE_TIME_LIMIT_S):
+            dag = construct(variables, anc)
+    except Exception as e:  # every exception of the implementation is an observation (CaseTimeout included)
         return "refused", e, f"refused:{type(e).__name__}:{refusal_reason(e)}"
     return "accepted", dag, observe(dag)
 
@@ -548,11 +554,22 @@ def expand(desc):
     raise ValueError(what)
 
 
+MAX_TIMEOUTS = 2  # after that many non-terminating constructions an enumeration stops (and says so)
+
+
 def digests(desc):
     items = expand(desc)
     if desc["what"] == "models":
         return [model_digests(m) for m in items]
-    return [case_digest(c) for c in items]
+    out, n_timeouts = [], 0
+    for c in items:
+        if n_timeouts >= MAX_TIMEOUTS:
+            out.append("skipped:too many timeouts")
+            continue
+        d = case_digest(c)
+        n_timeouts += d.startswith("refused:CaseTimeout")
+        out.append(d)
+    return out
 
 
 def child_main():
